@@ -552,7 +552,7 @@ def run_summary_check(ctx, prop, n):
                           {"seed": out["seed"], "prop": prop, "key": key})
     n_skipped = sum(1 for o in res if o["skipped"])
     if n_skipped > 0.25 * len(res):
-        raise runner.HarnessError("%d of %d base runs raised before any trace existed; the summary commands cannot be judged (see C19)" % (n_skipped, len(res)))
+        ctx.cannot_judge("%d of %d base runs raised before any trace existed; the summary commands cannot be judged (see C19)" % (n_skipped, len(res)))
     ctx.cov["evaluations"] = len(res)
     ctx.cov["distinct_nontrivial"] = len(sig)
     ctx.cov["summary_commands_run"] = cmds
